@@ -36,7 +36,7 @@ type T = number
 return true and lf(2)
 "#;
 
-fn project() -> Vec<(&'static str, &'static str)> {
+pub(crate) fn project() -> Vec<(&'static str, &'static str)> {
     vec![("src/a/x.lua", PROBE), ("src/b/y.luau", PROBE), ("src/a/dep.lua", "return 1\n"), ("src/b/dep.lua", "return 2\n"), (".luaurc", "{\"aliases\": {\"Pkg\": \"./src/a\"}}")]
 }
 
@@ -63,16 +63,16 @@ fn behaviour(config: Configuration) -> Result<String, String> {
     Ok(out)
 }
 
-struct RuleMenu {
-    name: &'static str,
+pub(crate) struct RuleMenu {
+    pub(crate) name: &'static str,
     /// property fragments (without braces); the first is the default (no property)
-    variants: Vec<&'static str>,
+    pub(crate) variants: Vec<&'static str>,
     /// fragments that must be rejected
     invalid: Vec<&'static str>,
     requires_properties: bool,
 }
 
-fn rule_menus() -> Vec<RuleMenu> {
+pub(crate) fn rule_menus() -> Vec<RuleMenu> {
     let plain = |name: &'static str| RuleMenu { name, variants: vec![""], invalid: vec!["extra: true", "rule_: 1"], requires_properties: false };
     let mut v = vec![
         RuleMenu {
@@ -102,7 +102,7 @@ fn rule_menus() -> Vec<RuleMenu> {
         },
         RuleMenu {
             name: "inject_global_value",
-            variants: vec!["identifier: 'G'", "identifier: 'G', value: true", "identifier: 'G', value: false", "identifier: 'G', value: 0", "identifier: 'G', value: 1.5", "identifier: 'G', value: 's'", "identifier: 'G', value: [1, 2]", "identifier: 'G', value: {a: 1}", "identifier: 'G', value: null", "identifier: 'H', value: 1"],
+            variants: vec!["identifier: 'G'", "identifier: 'G', value: true", "identifier: 'G', value: false", "identifier: 'G', value: 0", "identifier: 'G', value: 1.5", "identifier: 'G', value: 's'", "identifier: 'G', value: [1, 2]", "identifier: 'G', value: {a: 1}", "identifier: 'G', value: null", "identifier: 'H', value: 1", "identifier: 'G', value: Infinity", "identifier: 'G', value: -Infinity", "identifier: 'G', value: NaN", "identifier: 'G', value: [Infinity, 1]", "identifier: 'G', value: [null, 1]", "identifier: 'G', value: {a: NaN}", "identifier: 'G', value: {a: null}", "identifier: 'G', value: -1", "identifier: 'G', value: 1e300", "identifier: 'G', value: 9007199254740993"],
             invalid: vec!["", "value: 1", "identifier: 1", "identifier: 'G', value: 1, env: 'X'", "identifier: 'G', value: 1, default_value: 2", "identifier: 'G', env: 'X', env_json: 'Y'", "identifier: 'G', value: 1, env_json: 'Y'", "identifier: 'G', env: 'X', env_json: 'Y', default_value: 1", "identifier: 'G', extra: 1", "identifer: 'G'"],
             requires_properties: true,
         },
@@ -202,7 +202,7 @@ const INVALID_TOP_LEVELS: &[&str] = &[
     "rules: {a: #RULE#}",
 ];
 
-fn rule_text(name: &str, props: &str, filter: &str) -> Vec<String> {
+pub(crate) fn rule_text(name: &str, props: &str, filter: &str) -> Vec<String> {
     let mut forms = Vec::new();
     let parts: Vec<&str> = [props, filter].iter().filter(|s| !s.is_empty()).cloned().collect();
     if parts.is_empty() {
@@ -254,21 +254,58 @@ fn check_valid(text: &str, info: &std::sync::Mutex<Vec<(String, u128, String)>>)
             }
         }
     };
-    match problem {
-        None => (s != "{}", None),
-        Some(pb) => (
-            true,
-            Some(Violation {
-                // ConvertRequire::default() (current: path, target: roblox) is pinned by a snapshot test to serialize as the bare name
-                finding: if pb.contains("cannot be read back: missing required field 'current'") && text.contains("current: 'path', target: 'roblox'") {
-                    Some("default-convert-require-serializes-as-unreadable-name".to_owned())
-                } else {
-                    None
+    // the same round trip through JSON5, the language the configuration files are written in (it has spellings for the
+    // numbers JSON has not)
+    let json5_problem: Option<String> = match guarded(|| json5::from_str::<Configuration>(text)) {
+        Ok(Ok(again)) => match json5::to_string(&again) {
+            Err(e) => Some(format!("the configuration cannot be serialized as JSON5: {}", e)),
+            Ok(s5) => match guarded(|| json5::from_str::<Configuration>(&s5)) {
+                Ok(Ok(c5)) => match (behaviour(again), behaviour(c5)) {
+                    (Ok(a), Ok(b)) if a == b => None,
+                    (Ok(a), Ok(b)) => {
+                        let diff = a.lines().zip(b.lines()).find(|(x, y)| x != y).map(|(x, y)| format!("{:?} vs {:?}", x, y)).unwrap_or_else(|| "length".to_owned());
+                        Some(format!("the configuration read back from its JSON5 serialization behaves differently (first difference: {})\n--- JSON5 text {}", diff, s5))
+                    }
+                    (Err(e), _) | (_, Err(e)) => Some(e),
                 },
-                summary: format!("{}\n--- configuration {}\n--- serialized    {}", pb, text, s),
-                replay: json!({"kind": "config round trip", "config": text, "serialized": s, "problem": pb}),
-            }),
-        ),
+                // the json5 crate writes a float without fraction as all its digits (1e300: 301 digits) and its own reader
+                // refuses integers beyond 128 bits: a defect of that crate's writer/reader pair, not of darklua's configuration types
+                Ok(Err(e)) if e.to_string().contains("number too large to fit in target type") => None,
+                Ok(Err(e)) => Some(format!("the JSON5 serialization cannot be read back: {}\n--- JSON5 text {}", e, s5)),
+                Err(p) => Some(format!("PANIC reading the JSON5 serialization: {}", p)),
+            },
+        },
+        _ => None,
+    };
+    let non_finite = text.contains("Infinity") || text.contains("NaN") || text.contains("1e400");
+    let convert_default = text.contains("current: 'path', target: 'roblox'");
+    let mut violations: Vec<Violation> = Vec::new();
+    if let Some(pb) = &json5_problem {
+        // the same pinned serialization of ConvertRequire::default()
+        let finding = if pb.contains("cannot be read back: missing required field 'current'") && convert_default { Some("default-convert-require-serializes-as-unreadable-name".to_owned()) } else { None };
+        violations.push(Violation { finding, summary: format!("{}\n--- configuration {}", pb, text), replay: json!({"kind": "config round trip (JSON5)", "config": text, "problem": pb}) });
+    }
+    if let Some(pb) = &problem {
+        violations.push(Violation {
+            // ConvertRequire::default() (current: path, target: roblox) is pinned by a snapshot test to serialize as the bare name
+            finding: if pb.contains("cannot be read back: missing required field 'current'") && convert_default {
+                Some("default-convert-require-serializes-as-unreadable-name".to_owned())
+            } else if non_finite && json5_problem.is_none() && pb.contains("behaves differently") && s.contains("null") {
+                // JSON has no spelling for Infinity and NaN: serde_json writes `null`. Attributed only when the configuration
+                // holds such a number, its JSON text holds `null`, and the JSON5 round trip keeps the behaviour
+                Some("non-finite-number-of-a-rule-property-is-written-null-in-json".to_owned())
+            } else {
+                None
+            },
+            summary: format!("{}\n--- configuration {}\n--- serialized    {}", pb, text, s),
+            replay: json!({"kind": "config round trip", "config": text, "serialized": s, "problem": pb}),
+        });
+    }
+    let first = violations.pop();
+    // (one violation per configuration is reported: the JSON one when both fail)
+    match first {
+        None => (s != "{}", None),
+        Some(v) => (true, Some(v)),
     }
 }
 
@@ -323,13 +360,16 @@ pub fn run(tier: Tier) -> Report {
     report.rule = "valid side: each of the 32 rule names in string and object form x each documented property at default and non-default values x 7 filter \
         shapes (none / apply string / apply list / skip string / skip list / both) x 17 top-level shapes (rules/process alias, neighbours in the pipeline, \
         every generator form, bundle forms, top-level filters); one deviation from the base configuration at a time (rule property x filter on the plain top \
-        level; every rule variant x top-level shape without filter); thorough adds all pairs. Oracle: json5 text accepted => serde_json::to_string(c) is \
+        level; every rule variant x top-level shape); thorough adds every ordered pair of rule variants as one pipeline. Oracle: json5 text accepted => serde_json::to_string(c) and json5::to_string(c) are \
         readable again, stable, and the re-read configuration produces byte-identical outputs and errors on a probe project (two directories, one file per \
         extension, every rule has work to do). invalid side: every single-field corruption (misspelt key, wrong-typed value, unknown value, duplicate key, \
         contradictory pair, extra property on parameterless rules, invalid glob/regex, missing required property) must be rejected. non-trivial = \
         configurations whose serialization is not the empty object"
         .to_owned();
-    report.assumptions = vec!["property menus are transcribed from site/content/rules/*.md; serde_json::to_string(&Configuration) is the serialization the worker hashes to detect changes".to_owned()];
+    report.assumptions = vec![
+        "property menus are transcribed from site/content/rules/*.md; every accepted configuration is serialized twice, with serde_json::to_string and with json5::to_string (the text the worker hashes to detect changes), and each text is read back and its behaviour compared".to_owned(),
+        "a float beyond 128 bits without fraction (1e300) is written by the json5 crate as all its digits, which the same crate refuses to read: that failure of the third-party writer/reader pair is not judged (the JSON round trip of the same configuration is)".to_owned(),
+    ];
     let menus = rule_menus();
     let mut checks: Vec<Check> = Vec::new();
     let wrap = |top: &str, rule: &str| format!("{{{}}}", top.replace("#RULE#", rule));
@@ -378,6 +418,16 @@ pub fn run(tier: Tier) -> Report {
         if let Some(p) = m.variants.iter().find(|p| !p.is_empty()) {
             checks.push(Check::Invalid(wrap(TOP_LEVELS[0], &format!("{{rule: '{}', rule: '{}', {}}}", m.name, m.name, p))));
             checks.push(Check::Invalid(wrap(TOP_LEVELS[0], &format!("{{rule: '{}', {}, apply_to_files: 'a', apply_to_files: 'b'}}", m.name, p))));
+        }
+    }
+    // thorough: every ordered pair of rule variants (object form, no filter) as one pipeline - the reading of one rule must
+    // not depend on its neighbour, and the serialization of the pair must keep both
+    if tier == Tier::Thorough {
+        let singles: Vec<String> = menus.iter().flat_map(|m| m.variants.iter().filter(|p| !(m.requires_properties && p.is_empty())).filter_map(|p| rule_text(m.name, p, "").pop())).collect();
+        for a in &singles {
+            for b in &singles {
+                checks.push(Check::Valid(wrap(TOP_LEVELS[0], &format!("{}, {}", a, b))));
+            }
         }
     }
     for bad in ["'unknown_rule'", "{rule: 'unknown_rule'}", "{}", "1", "null", "['remove_spaces']", "{rule: 1}", "{rules: 'remove_spaces'}", "'Remove_Spaces'", "''"] {
